@@ -209,14 +209,45 @@ where
             #[cfg(feature = "tracing")]
             debug!(coalesce = %name, "Request executing as leader");
 
+            // The key is registered already: if the inner service panics inside `call`,
+            // the registration must not outlive the unwinding
+            let mut registration = LeaderRegistration {
+                key: Some(key),
+                in_flight: Arc::clone(&self.in_flight),
+            };
             let future = self.inner.call(request);
+            let key = registration.key.take();
             let in_flight = Arc::clone(&self.in_flight);
 
             CoalesceFuture::Leading {
                 future: Box::pin(future),
-                key: Some(key),
+                key,
                 in_flight,
             }
+        }
+    }
+}
+
+/// Removes a freshly registered leader key again unless the leader future took it over.
+struct LeaderRegistration<K, Res, E>
+where
+    K: Hash + Eq + Clone,
+    Res: Clone,
+    E: Clone,
+{
+    key: Option<K>,
+    in_flight: Arc<InFlight<K, Res, E>>,
+}
+
+impl<K, Res, E> Drop for LeaderRegistration<K, Res, E>
+where
+    K: Hash + Eq + Clone,
+    Res: Clone,
+    E: Clone,
+{
+    fn drop(&mut self) {
+        if let Some(k) = self.key.take() {
+            self.in_flight.cancel(&k);
         }
     }
 }
